@@ -294,7 +294,9 @@ def callbacks_body(ex, errors):
     o.on_trait_change(lambda new: log["p"].append(new), "cached")
     o.on_trait_change(lambda new: log["proto"].append(new), "x")
     o.on_trait_change(lambda new: log["p"].append(("legacy", new)), "legacy")
-    scenario = ex.choice("scenario", 12)
+    scenario = ex.choice("scenario", 13)
+    if scenario == 12:
+        return dynamic_range_scenario(ex, E)
     if scenario == 10:
         return unread_default_scenario(ex, E, st, o)
     if scenario == 11:
@@ -412,6 +414,46 @@ def unread_default_scenario(ex, E, st, o):
     o.dyn = [6]
     ex.check(o.dyn == [6] and seen == [([1], [6])], "afterwards assignment works and reports the real old value")
     return {"scenario": 10}
+
+
+def dynamic_range_scenario(ex, E):
+    """a Range whose default is named by another trait (value='start'): the FIRST assignment, before the attribute was ever read,
+    needs the old value, i.e. the default, i.e. `start` - whose default method fails.  The assignment has no effect at all."""
+    from traits.api import Range
+    st = {"fail": True, "calls": 0}
+
+    class Gauge(HasTraits):
+        lo = Int(0)
+        hi = Int(100)
+        start = Int()
+        level = Range(low="lo", high="hi", value="start")
+
+        def _start_default(self):
+            st["calls"] += 1
+            if st["fail"]:
+                raise E("injected")
+            return 7
+
+    g = Gauge()
+    seen = []
+    if ex.flag("listener"):
+        g.on_trait_change(lambda obj, n, old, new: seen.append((old, new)), "level")
+    exc = None
+    try:
+        g.level = 55
+    except Exception as e:
+        exc = type(e)
+    if exc is not None:
+        ex.check(exc in (E, TraitError), "a default method failing inside an assignment reaches the caller unchanged or as TraitError")
+        ex.check(seen == [], "... and no handler is called")
+        st["fail"] = False
+        ex.check(g.level == 7, "... and the assignment has no effect: the next read gives the default, as on an object that never saw the failure")
+    else:
+        st["fail"] = False
+        ex.check(g.level == 55, "an assignment that succeeded is what later reads return")
+    g.level = 60
+    ex.check(g.level == 60, "afterwards assignment works")
+    return {"scenario": 12}
 
 
 def filter_scenario(ex, E):
